@@ -146,3 +146,133 @@ Example C03_joiner_single_pair_not_merged :
      [mkT 0 0 1 5 true [(100,200);(300,900)] []; mkT 0 0 2 8 false [(100,200);(300,700)] []]
      with Ok l => Some l | Raises _ => None end) = Some [5; 8].
 Proof. vm_compute. reflexivity. Qed.
+
+(* ================================================================== round 3: whole files, whole printer lives *)
+From IQ Require Import GffMulti GffFiles.
+
+(* finding C03:gene-line-first-dump, characterised exactly.  Over ANY sequence of dump calls of one printer (one per processed
+   region): the gene line of g is written by the first call that holds a valid model of g (valid_of: passes validate_exons); its
+   range is the LEAST interval around the range annotated for g in that call's gene_info and the valid models of g of THAT call;
+   it contains every transcript line of g in the file iff every valid model of g handed over by a LATER call lies inside it; and
+   its `transcripts "n"` attribute is the number of transcript lines of g in the file iff no later call holds a valid model of g *)
+Theorem C03_gene_contains_all_transcripts_iff : forall calls p ls c s e st g n,
+  dumps [] calls = Ok (p, ls) -> In (GeneL c s e st g n) ls ->
+  exists pre gi storage post,
+    calls = pre ++ (gi, storage) :: post /\
+    (forall call, In call pre -> valid_of g (snd call) = []) /\ valid_of g storage <> [] /\
+    (s, e) = call_range gi g (valid_of g storage) /\
+    ((forall m, In m (valid_of g storage) -> contains (s, e) (tregion (t_exons m))) /\
+     (forall rg, annot gi g = Some rg -> contains (s, e) rg) /\
+     (forall big, (forall m, In m (valid_of g storage) -> contains big (tregion (t_exons m))) ->
+                  (forall rg, annot gi g = Some rg -> contains big rg) -> contains big (s, e))) /\
+    ((forall c' s' e' st' t, In (TrL c' s' e' st' g t) ls -> s <= s' /\ e' <= e) <->
+     (forall call m, In call post -> In m (valid_of g (snd call)) -> contains (s, e) (tregion (t_exons m)))) /\
+    (n = Z.of_nat (length (valid_of g storage))) /\
+    (n = trcount g ls <-> forall call, In call post -> valid_of g (snd call) = []).
+Proof. exact gene_contains_all_transcripts_iff. Qed.
+Print Assumptions C03_gene_contains_all_transcripts_iff.
+
+(* a gene whose valid models all come in one call (a locus processed in one region) always satisfies the property, count included *)
+Theorem C03_single_call_gene_contains_all_transcripts : forall calls p ls c s e st g n,
+  dumps [] calls = Ok (p, ls) -> In (GeneL c s e st g n) ls ->
+  (forall c1 c2 pre mid post, calls = pre ++ c1 :: mid ++ c2 :: post -> valid_of g (snd c1) = [] \/ valid_of g (snd c2) = []) ->
+  (forall c' s' e' st' t, In (TrL c' s' e' st' g t) ls -> s <= s' /\ e' <= e) /\ n = trcount g ls.
+Proof. exact single_call_gene_contains_all. Qed.
+Print Assumptions C03_single_call_gene_contains_all_transcripts.
+(* in particular every gene of a printer that is called once — the extended-annotation printer of a chromosome *)
+Theorem C03_one_dump_gene_contains_all_transcripts : forall gi storage p ls c s e st g n,
+  dumps [] [(gi, storage)] = Ok (p, ls) -> In (GeneL c s e st g n) ls ->
+  (forall c' s' e' st' t, In (TrL c' s' e' st' g t) ls -> s <= s' /\ e' <= e) /\ n = trcount g ls.
+Proof. exact one_dump_gene_contains_all. Qed.
+Print Assumptions C03_one_dump_gene_contains_all_transcripts.
+
+(* one dump call, exactly: the transcript and feature lines are (a permutation of) the lines of the models that pass validate_exons;
+   the printer remembers exactly the genes it has seen; a gene line carries the call range and the call's model count *)
+Theorem C03_dump_characterised : forall printed gi storage p ls, dump printed gi storage = Ok (p, ls) ->
+  Permutation (filter nongene ls) (flat_map emit_model (filter valid storage)) /\
+  (forall g, In g p <-> In g printed \/ valid_of g storage <> []) /\
+  (forall c s e st g n, In (GeneL c s e st g n) ls ->
+     ~ In g printed /\ valid_of g storage <> [] /\ (s, e) = call_range gi g (valid_of g storage) /\
+     n = Z.of_nat (length (valid_of g storage)) /\ c = g_chr gi).
+Proof. exact dump_char. Qed.
+Print Assumptions C03_dump_characterised.
+
+(* extended_annotation.gtf and transcript_models.gtf over all chromosomes.  A `chrom` is one worker: the dump calls of its models
+   printer, what create_extended_storage reads, the novel models it collects (c_novel = the models of all regions that are not
+   `known`).  For every list of chromosomes, whatever their names and the file suffixes sm / se (merge_files(copy_header=False)
+   sorts the parts in natural order of their file names itself; gmerge_files is merge_files over lines instead of numbers, see C03_merge_files_generic): the non-gene lines of the
+   merged extended file are, as a multiset, the lines of every annotated isoform whose exons pass validate_exons + the lines of
+   every valid novel model; the merged models file holds the lines of exactly the same novel models (+ the known models it
+   reports).  emit_model fixes id, gene, chromosome, strand and every exon coordinate: identical coordinates, each once. *)
+Theorem C03_extended_file_is_reference_plus_novel_all_chromosomes : forall (sm se:list Z) chrs mls els,
+  Forall2 (fun c ls => models_part c = Ok ls) chrs mls -> Forall2 (fun c ls => extended_part c = Ok ls) chrs els ->
+  Permutation (filter nongene (merged se chrs els)) (flat_map emit_model (all_refs chrs ++ all_novel chrs)) /\
+  Permutation (filter nongene (merged sm chrs mls)) (flat_map emit_model (all_known_printed chrs ++ all_novel chrs)).
+Proof. exact extended_file_all_chromosomes. Qed.
+Print Assumptions C03_extended_file_is_reference_plus_novel_all_chromosomes.
+
+Theorem C03_reference_transcripts_in_extended_file : forall (sm se:list Z) chrs mls els c ri i,
+  Forall2 (fun c ls => models_part c = Ok ls) chrs mls -> Forall2 (fun c ls => extended_part c = Ok ls) chrs els ->
+  In c chrs -> c_ref c = Some ri -> In i (ri_isoforms ri) -> validate_exons (i_exons i) = true ->
+  In (TrL (ri_chr ri) (fst (tregion (i_exons i))) (snd (tregion (i_exons i))) (i_strand i) (i_gene i) (i_id i)) (merged se chrs els) /\
+  forall x, In x (i_exons i) -> exists k, In (FeatL (ri_chr ri) 2 (fst x) (snd x) (i_strand i) (i_gene i) (i_id i) k) (merged se chrs els).
+Proof. exact reference_transcripts_in_extended_file. Qed.
+Print Assumptions C03_reference_transcripts_in_extended_file.
+
+(* Gff.merge_files (payload Z) run on encoded lines is the generic merge used above, and the generic merge loses nothing *)
+Theorem C03_merge_files_generic : forall (A:Type) (enc:A -> Z) cp (parts:list (gpart A)),
+  merge_files cp (map (to_part enc) parts) = map (enc_line enc) (gmerge_files cp parts) /\
+  Permutation (gmerge_files false parts) (flat_map (fun p => if gp_exists p then gdrop_header (gp_lines p) else []) parts).
+Proof. intros A enc cp parts. split; [apply merge_files_is_gmerge|apply gmerge_files_no_loss]. Qed.
+Print Assumptions C03_merge_files_generic.
+
+(* a transcript id is written once per output file (and once per printer), given that the printable models carry distinct ids.
+   Transcript ids are numbers chosen by the harness in this model; the hypothesis is discharged for the real id strings by C17:
+   C17_extended_file_ids_unique (reference ids + novel ids of all chromosomes pairwise distinct; its own hypotheses are distinct
+   chromosome names, distinct reference ids, C17 home_ok), built on C17_allocated_ids_distinct, C17_ids_unique_per_file,
+   C17_allocated_ids_not_in_reference and C17_novel_ids_not_in_whole_reference.  The converse holds too: a repeated id among the
+   printable models is printed twice. *)
+Theorem C03_transcript_ids_once_per_file : forall (sm se:list Z) chrs mls els,
+  Forall2 (fun c ls => models_part c = Ok ls) chrs mls -> Forall2 (fun c ls => extended_part c = Ok ls) chrs els ->
+  (NoDup (map t_id (all_refs chrs ++ all_novel chrs)) <-> NoDup (tids (merged se chrs els))) /\
+  (NoDup (map t_id (all_known_printed chrs ++ all_novel chrs)) -> NoDup (tids (merged sm chrs mls))).
+Proof. intros sm se chrs mls els FM FE. destruct (transcript_ids_once_per_file sm se chrs mls els FM FE) as (A & B).
+  split; [split; [exact A|exact (transcript_ids_once_per_file_converse sm se chrs mls els FM FE)]|exact B]. Qed.
+Print Assumptions C03_transcript_ids_once_per_file.
+Theorem C03_transcript_ids_once_per_printer : forall calls p ls, dumps [] calls = Ok (p, ls) ->
+  NoDup (map t_id (filter valid (all_models calls))) -> NoDup (tids ls).
+Proof. exact transcript_ids_once_per_printer. Qed.
+Print Assumptions C03_transcript_ids_once_per_printer.
+
+(* ---- instances *)
+(* the recorded finding as an instance of the right-hand side failing: the later region's model (70001-81000) is outside the
+   first-call range (10001-80000), and the count says 1 of 2 *)
+Example C03_gene_line_first_dump_instance :
+  let gi := mkG 0 false [(7, (10001, 80000))] in
+  let known := mkT 0 0 1 7 true [(10001,10300);(12001,12300);(14001,14500)] [] in
+  let late := mkT 0 0 2 7 false [(70001,70300);(72001,72300);(79501,81000)] [] in
+  call_range gi 7 (valid_of 7 [known]) = (10001, 80000) /\ valid_of 7 [late] = [late] /\
+  tregion (t_exons late) = (70001, 81000) /\ ~ contains (10001, 80000) (tregion (t_exons late)) /\
+  (exists p ls, dumps [] [(gi, [known]); (gi, [late])] = Ok (p, ls) /\ In (GeneL 0 10001 80000 0 7 1) ls /\ trcount 7 ls = 2).
+Proof. exact finding24_instance. Qed.
+(* two regions, the later model inside the first-call range: contained, but the count is still that of the first call *)
+Example C03_two_calls_contained_example :
+  let gi := mkG 0 false [(7, (10001, 80000))] in
+  let known := mkT 0 0 1 7 true [(10001,10300);(12001,12300);(14001,14500)] [] in
+  let late := mkT 0 0 2 7 false [(70001,70300);(72001,72300);(79501,79900)] [] in
+  exists p ls, dumps [] [(gi, [known]); (gi, [late])] = Ok (p, ls) /\ In (GeneL 0 10001 80000 0 7 1) ls /\
+    In (TrL 0 70001 79900 0 7 2) ls /\ contains (10001, 80000) (tregion (t_exons late)) /\ trcount 7 ls = 2.
+Proof. exact two_calls_contained. Qed.
+(* two chromosomes, "chr10" given first and sorted after "chr2": 2 annotated isoforms + 2 novel models, each once *)
+Example C03_two_chromosomes_example :
+  exists mls els, Forall2 (fun c ls => models_part c = Ok ls) [ex_c10; ex_c2] mls /\ Forall2 (fun c ls => extended_part c = Ok ls) [ex_c10; ex_c2] els /\
+    tids (merged sfx_extended [ex_c10; ex_c2] els) = [51; 1; 2; 50] /\ tids (merged sfx_models [ex_c10; ex_c2] mls) = [51; 1; 50] /\
+    map t_id (all_refs [ex_c10; ex_c2] ++ all_novel [ex_c10; ex_c2]) = [1; 2; 50; 51].
+Proof. exact two_chromosomes_example. Qed.
+
+(* the decidable form of C03_gene_contains_all_transcripts_iff that the check evaluates on the implementation's files
+   (GffMultiSpec.printer_life_ok, correspondence "files") holds of the model's own output *)
+From IQ Require Import GffMultiSpec.
+Theorem C03_printer_life_ok_model : forall calls p ls, dumps [] calls = Ok (p, ls) -> printer_life_ok calls ls = true.
+Proof. exact printer_life_ok_model. Qed.
+Print Assumptions C03_printer_life_ok_model.
